@@ -201,6 +201,9 @@ func (a *appB) judge(cs caseB, seam string, l *core.Local, sample bool) (rebuild
 			map[string]any{"cookie_hex": hexs(a.richVal), "transport": tr.Name}, map[string]any{"status": rr.status, "saw": trimSeen(rr.s), "panic": fmt.Sprint(rr.panicked)}, a.rich)
 		return true
 	}
+	// 1b. the same cookie followed by a garbage byte: malformed, but with a fully decodable prefix —
+	// whatever the error path leaves behind in the pooled context must not surface in step 2
+	a.send("hdr", append(append([]byte{}, a.richVal...), tr.enc([]byte("x"))...), false)
 	// 2. the hostile value; for a well-formed one the by-key accessors are probed too
 	a.probes = nil
 	sent := cs.Val
@@ -218,7 +221,7 @@ func (a *appB) judge(cs caseB, seam string, l *core.Local, sample bool) (rebuild
 	extraDoc := map[string]any{}
 	mkCase := func() map[string]any {
 		d := map[string]any{"part": "b", "seam": seam, "cookie_value_hex": hexs(sent), "cookie_len": len(sent), "form": cs.Desc, "transport": tr.Name,
-			"preceded_by": "valid 15-message cookie (keys STALE-KEY-nn, values STALE-VALUE-nn, levels 0x61.., alternating old-input flag)"}
+			"preceded_by": "valid 15-message cookie (keys STALE-KEY-nn, values STALE-VALUE-nn, levels 0x61.., alternating old-input flag), then the same cookie + one trailing garbage byte"}
 		for k, v := range extraDoc {
 			d[k] = v
 		}
